@@ -28,17 +28,35 @@ fn k5_round_robin_call_uses_next() {
     let hit = Cell::new(255u8);
     let seen = Cell::new(0u32);
     let rr = RoundRobin::new(vec![
-        Rec { idx: 0, hit: &hit, seen_req: &seen },
-        Rec { idx: 1, hit: &hit, seen_req: &seen },
-        Rec { idx: 2, hit: &hit, seen_req: &seen },
+        Rec {
+            idx: 0,
+            hit: &hit,
+            seen_req: &seen,
+        },
+        Rec {
+            idx: 1,
+            hit: &hit,
+            seen_req: &seen,
+        },
+        Rec {
+            idx: 2,
+            hit: &hit,
+            seen_req: &seen,
+        },
     ]);
-    let ctx = context::Context { deadline: any_instant(), trace_context: Default::default() };
+    let ctx = context::Context {
+        deadline: any_instant(),
+        trace_context: Default::default(),
+    };
     let mut k = 0u8;
     while k < 4 {
         let req: u32 = kani::any();
         let out = run(rr.call(ctx, req));
         assert!(hit.get() == k % 3, "C20: call k goes to backend k % 3");
-        assert!(seen.get() == req && matches!(out, Ok(v) if v == req), "C20: request and result pass through unchanged");
+        assert!(
+            seen.get() == req && matches!(out, Ok(v) if v == req),
+            "C20: request and result pass through unchanged"
+        );
         k += 1;
     }
 }
